@@ -1023,7 +1023,7 @@ def gen_specs(ctx) -> list[tuple[str, dict, int, int, str]]:
             {"variant": v[0], "phase": v[1], "mod": _mod(rng, i, base_tasks, True), "tries": 1} for i, v in enumerate(tr)]}
         jobs.append(("split", spec, 100000, 0, "three-1try-all"))
     if thorough:
-        for tr in triples[:1]:
+        for tr in triples[:2]:
             spec = {"tasks": base_tasks, "status0": 1, "workers": [
                 {"variant": v[0], "phase": v[1], "mod": _mod(rng, i, base_tasks, True), "tries": 2} for i, v in enumerate(tr)]}
             jobs.append(("split", spec, 100000, 0, "three-2tries-all"))
